@@ -368,6 +368,21 @@ namespace sim
 				// address. Now, with a domain name, one of those bytes was the
 				// length-prefix, but we still read 3 bytes already.
 				const int additional_bytes = len - 3;
+				if (additional_bytes < 0)
+				{
+					// the fixed-size read of the request header already consumed
+					// bytes past the end of this request, it cannot be framed
+					std::printf("ERROR: hostnames shorter than 3 characters are not supported\n");
+					close_connection();
+					return;
+				}
+				if (additional_bytes == 0)
+				{
+					// we have the whole request already, there's nothing more
+					// to read
+					on_request_domain_name(error_code(), 0);
+					break;
+				}
 				asio::async_read(m_client_connection, asio::buffer(&m_out_buffer[10], additional_bytes)
 					, std::bind(&socks_connection::on_request_domain_name
 						, shared_from_this(), std::placeholders::_1, std::placeholders::_2));
